@@ -27,3 +27,15 @@ package executorcmd
 //@ closure (*RpcClient).doTransition #1
 //@   noverify
 //@   modifies nothing
+
+// ---------------------------------------------------------------------------------------------------------
+// C17: a transition command commits exactly its own event / source / destination on its transitioner
+//@ func (e *ExecutorCommand_Transition) Commit() (finalState string, err error)
+//@   property C17
+//@   requires e != nil && e.Transitioner != nil
+//@   ensures err == nil && old(e.Event == "START" || e.Event == "STOP" || e.Event == "CONFIGURE" || e.Event == "RESET" || e.Event == "EXIT") ==> finalState == old(e.Destination)
+
+//@ func NewLocalExecutorCommand_Transition(transitioner transitioner.Transitioner, envId uid.ID, receivers []controlcommands.MesosCommandTarget, source string, event string, destination string, arguments controlcommands.PropertyMapsMap) (c *ExecutorCommand_Transition)
+//@   property C17
+//@   modifies nothing
+//@   ensures fresh(c) && c.Transitioner == transitioner && c.Source == source && c.Event == event && c.Destination == destination
